@@ -93,6 +93,97 @@ Definition approximate_gamma_mom (N__ : Num) (F__ : Fns N__) (H__ : HypFns N__) 
   let rate := (Num.div N__ mean variance) in
   Ok ((Num.sub N__ shape (f_lit N__ F__ (1)%Z (1)%Z 0x1.0000000000000p+0%float)), rate).
 
+(** tsdate/approx.py:144-185  [approximate_gamma_iqr]   uses: E exp isfinite isinf lgamma lit log *)
+Definition approximate_gamma_iqr (N__ : Num) (F__ : Fns N__) (H__ : HypFns N__) (E__ : ExtFns N__) (q1 : T N__) (q2 : T N__) (x1 : T N__) (x2 : T N__) (max_shape : T N__) : exc (T N__ * T N__) :=
+  let upper_bound__ := fun (q : T N__) (x : T N__) =>
+      let beta := (Num.div N__ ((e_gammainc_inv N__ E__) max_shape q) x) in
+      ((Num.sub N__ max_shape (Num.ofZ N__ (1)%Z)), beta)
+  in
+  if (Num.eqb N__ x2 x1) then
+    Ok (upper_bound__ q1 x1)
+  else
+  if (negb (andb (gtb N__ q2 q1) (gtb N__ x2 x1))) then
+    Err EKLFail
+  else
+  let alpha := (Num.div N__ (f_log N__ F__ (Num.div N__ q2 q1)) (f_log N__ F__ (Num.div N__ x2 x1))) in
+  if (gtb N__ alpha max_shape) then
+    Ok (upper_bound__ q1 x1)
+  else
+  let itt := (Num.ofZ N__ (0)%Z) in
+  if (orb (f_isfinite N__ F__ (Num.mul N__ (absN N__ alpha) (f_lit N__ F__ (1)%Z (67108864)%Z 0x1.0000000000000p-26%float))) (andb (f_isinf N__ F__ (Num.mul N__ (absN N__ alpha) (f_lit N__ F__ (1)%Z (67108864)%Z 0x1.0000000000000p-26%float))) (Num.ltb N__ (Num.mul N__ (absN N__ alpha) (f_lit N__ F__ (1)%Z (67108864)%Z 0x1.0000000000000p-26%float)) (Num.zero N__)))) then
+    if (gtb N__ itt (Num.ofZ N__ (100)%Z)) then
+      Err EKLFail
+    else
+    let y1 := ((e_gammainc_inv N__ E__) alpha q1) in
+    let y2 := ((e_gammainc_inv N__ E__) alpha q2) in
+    let obj := (Num.sub N__ (Num.div N__ y2 y1) (Num.div N__ x2 x1)) in
+    let inv_1 := (Num.neg N__ (f_exp N__ F__ (Num.add N__ (Num.add N__ y1 (Num.mul N__ (f_log N__ F__ y1) (Num.sub N__ (Num.ofZ N__ (1)%Z) alpha))) (f_lgamma N__ F__ alpha)))) in
+    let inv_2 := (Num.neg N__ (f_exp N__ F__ (Num.add N__ (Num.add N__ y2 (Num.mul N__ (f_log N__ F__ y2) (Num.sub N__ (Num.ofZ N__ (1)%Z) alpha))) (f_lgamma N__ F__ alpha)))) in
+    match ((e_gammainc_der N__ E__) alpha y1) with
+    | Err e__ => Err e__
+    | Ok call6__ =>
+        let gra_1 := (Num.mul N__ call6__ inv_1) in
+        match ((e_gammainc_der N__ E__) alpha y2) with
+        | Err e__ => Err e__
+        | Ok call7__ =>
+            let gra_2 := (Num.mul N__ call7__ inv_2) in
+            let gra := (Num.div N__ (Num.sub N__ (Num.mul N__ gra_2 y1) (Num.mul N__ gra_1 y2)) (pw N__ y1 2%nat)) in
+            let delta := (Num.div N__ (Num.neg N__ obj) gra) in
+            let alpha := (Num.add N__ alpha delta) in
+            let itt := (Num.add N__ itt (Num.ofZ N__ (1)%Z)) in
+            let loop8__ := fix loop8__ (fuel__ : nat) (delta : T N__) (alpha : T N__) (itt : T N__) {struct fuel__} : exc (T N__ * T N__ * T N__) :=
+                match fuel__ with O => Err EFuel | S fuel__ =>
+                  if (gtb N__ (absN N__ delta) (Num.mul N__ (absN N__ alpha) (f_lit N__ F__ (1)%Z (67108864)%Z 0x1.0000000000000p-26%float))) then
+                    if (gtb N__ itt (Num.ofZ N__ (100)%Z)) then
+                      Err EKLFail
+                    else
+                    let y1 := ((e_gammainc_inv N__ E__) alpha q1) in
+                    let y2 := ((e_gammainc_inv N__ E__) alpha q2) in
+                    let obj := (Num.sub N__ (Num.div N__ y2 y1) (Num.div N__ x2 x1)) in
+                    let inv_1 := (Num.neg N__ (f_exp N__ F__ (Num.add N__ (Num.add N__ y1 (Num.mul N__ (f_log N__ F__ y1) (Num.sub N__ (Num.ofZ N__ (1)%Z) alpha))) (f_lgamma N__ F__ alpha)))) in
+                    let inv_2 := (Num.neg N__ (f_exp N__ F__ (Num.add N__ (Num.add N__ y2 (Num.mul N__ (f_log N__ F__ y2) (Num.sub N__ (Num.ofZ N__ (1)%Z) alpha))) (f_lgamma N__ F__ alpha)))) in
+                    match ((e_gammainc_der N__ E__) alpha y1) with
+                    | Err e__ => Err e__
+                    | Ok call9__ =>
+                        let gra_1 := (Num.mul N__ call9__ inv_1) in
+                        match ((e_gammainc_der N__ E__) alpha y2) with
+                        | Err e__ => Err e__
+                        | Ok call10__ =>
+                            let gra_2 := (Num.mul N__ call10__ inv_2) in
+                            let gra := (Num.div N__ (Num.sub N__ (Num.mul N__ gra_2 y1) (Num.mul N__ gra_1 y2)) (pw N__ y1 2%nat)) in
+                            let delta := (Num.div N__ (Num.neg N__ obj) gra) in
+                            let alpha := (Num.add N__ alpha delta) in
+                            let itt := (Num.add N__ itt (Num.ofZ N__ (1)%Z)) in
+                            loop8__ fuel__ delta alpha itt
+                        end
+                    end
+                  else
+                  Ok (delta, alpha, itt)
+                end in
+            match loop8__ fuel_loop delta alpha itt with
+            | Err e__ => Err e__
+            | Ok (delta, alpha, itt) =>
+                if (negb (gtb N__ alpha (Num.ofZ N__ (0)%Z))) then
+                  Err EKLFail
+                else
+                if (gtb N__ alpha max_shape) then
+                  Ok (upper_bound__ q1 x1)
+                else
+                let beta := (Num.div N__ ((e_gammainc_inv N__ E__) alpha q1) x1) in
+                Ok ((Num.sub N__ alpha (Num.ofZ N__ (1)%Z)), beta)
+            end
+        end
+    end
+  else
+  if (negb (gtb N__ alpha (Num.ofZ N__ (0)%Z))) then
+    Err EKLFail
+  else
+  if (gtb N__ alpha max_shape) then
+    Ok (upper_bound__ q1 x1)
+  else
+  let beta := (Num.div N__ ((e_gammainc_inv N__ E__) alpha q1) x1) in
+  Ok ((Num.sub N__ alpha (Num.ofZ N__ (1)%Z)), beta).
+
 (** tsdate/approx.py:207-212  [_valid_moments]   uses: isfinite lit *)
 Definition valid_moments (N__ : Num) (F__ : Fns N__) (H__ : HypFns N__) (mn : T N__) (va : T N__) : bool :=
   if (negb (andb (f_isfinite N__ F__ mn) (f_isfinite N__ F__ va))) then
